@@ -254,6 +254,10 @@ func buildBattery() *battery {
 		{Tags: tags("d", "y")},
 		{Tags: tags("d", "x", "y")},
 		{Kinds: []int64{1}, Tags: tags("t", "z")},
+		// the empty string as a listed value (an event may carry ["t",""], or a bare ["t"])
+		{Tags: tags("t", "")},
+		{Tags: tags("t", "", "z")},
+		{Authors: []string{P}, Tags: tags("t", "")},
 	}
 	for _, f := range bases {
 		b.addQuery(b.addFilter(cloneFilter(f)))
